@@ -246,3 +246,19 @@ def segment_delete_files(ctx, rep, rid):
         ok = got.count(want) == 1
         rep.ob(rid, SEG + '::delete', 'remove_file(%s)' % want, ok, None, None if ok else
                'Segment::delete removes %s: `%s` is removed %d times — a file of the deleted segment survives and is reused when a segment is created at the same path' % (got, want, got.count(want)))
+
+
+def writers_before_readers(ctx, rep, rid):
+    """the writers create a missing segment file (the readers open read-only): wherever both are initialised, the
+    writers come first, otherwise a segment whose index file was not yet created when the server died can never be loaded"""
+    from lib import is_user_call
+    for fn in (SEG + '::load_from_disk', SEG + '::persist'):
+        if not ctx.has(fn):
+            rep.anchor_lost(rid, fn)
+            continue
+        b = ctx.fn_body(fn)
+        w = [c for c in b.calls if c.name.endswith('Segment::initialize_writing') and is_user_call(c)]
+        r = [c for c in b.calls if c.name.endswith('Segment::initialize_reading') and is_user_call(c)]
+        ok = bool(w) and bool(r) and all(any(b.dominates(x.bb, y.bb) and x.bb != y.bb for x in w) for y in r)
+        rep.ob(rid, fn, 'initialize_writing before initialize_reading', ok, r[0].where() if r else None, None if ok else
+               'the readers are opened before the writers have created the files: after a crash between the creation of the log file and of the index file the segment cannot be loaded any more')
